@@ -75,6 +75,9 @@ void exit(int c) { __CPROVER_assume(0); }
 #ifndef VOPT_MAINLOOP_CLAUSES
 # define VOPT_MAINLOOP_CLAUSES
 #endif
+#ifndef VOPT_REMOVE_REST_CLAUSES          /* the loop that clears a list option's words from argv */
+# define VOPT_REMOVE_REST_CLAUSES
+#endif
 #ifndef VOPT_COMPACT_CLAUSES
 # define VOPT_COMPACT_CLAUSES
 # define VOPT_COMPACT_GHOST_TOP
